@@ -123,6 +123,9 @@ func TestVerifC05Race(t *testing.T) {
 	}
 	r := ev.Start(t, "C05")
 	defer r.Finish()
+	if os.Getenv("VERIF_REPLAY") != "" {
+		return // a replay runs exactly one case of the schedule part
+	}
 	r.Rule("free-running pass: per secret kind 150 rounds of 3 unscheduled goroutines sending the same requests as the schedule exploration to a fresh store, built with -race (assumption check only)")
 	const name = "free-running -race pass: no unsynchronised access between two store operations of concurrent requests"
 	if !raceEnabled {
